@@ -248,3 +248,113 @@ reg(Zoo(
         ],
     ),
 ))
+
+# ------------------------------------------------------------------------------------------------
+# compl: completion chains (length 1-4), conflicting completion rows, inside a submachine, with a
+# deferring state so that deferred and queued events can be pending when completion rows fire
+reg(Zoo(
+    name='compl',
+    events=['e1', 'e2', 'e3', 'e4'],
+    root=Machine(
+        'CRoot',
+        states=[
+            S('I'), S('A'), S('B'), S('C'), S('D'),
+            S('CSub', kind='sub', sub=Machine(
+                'CSub',
+                states=[S('P'), S('Q'), S('Rr')],
+                initial=['P'],
+                rows=[
+                    R('P', None, 'Q'),
+                    R('Q', None, 'Rr'),
+                    R('Rr', 'e1', 'P', a=False, g=False),
+                    R('Q', 'e1', 'P', a=False, g=False),
+                    R('P', 'e2', 'Q', a=False, g=False),
+                ],
+            )),
+            S('W', defer=['e4']),
+        ],
+        initial=['I'],
+        rows=[
+            R('I', None, 'A'),
+            R('A', None, 'B'),
+            R('A', None, 'C'),                     # conflict: declared later, tried first
+            R('B', None, 'C'),
+            R('C', None, 'D', g=False),
+            R('D', 'e1', 'CSub', a=False, g=False),
+            R('D', 'e2', 'W', a=False, g=False),
+            R('W', 'e1', 'I', a=False, g=False),
+            R('I', 'e1', 'A', a=False, g=False),
+            R('A', 'e1', 'D', a=False, g=False),
+            R('B', 'e1', 'D', a=False, g=False),
+            R('CSub', 'e3', 'D', a=False, g=False),
+            R('D', 'e4', None, g=False),
+            R('B', 'e4', None, g=False),
+        ],
+    ),
+    menu=[('pe', 'e4', 'local'), ('eq', 'e1', 'root')],
+))
+
+# ------------------------------------------------------------------------------------------------
+# defer: states deferring one or two event types, a Defer action row with a guard, handling states
+reg(Zoo(
+    name='defer',
+    events=['d1', 'd2', 'go', 'bk', 'nop'],
+    root=Machine(
+        'DRoot',
+        states=[S('S1', defer=['d1', 'd2']), S('S2', defer=['d1']), S('S3'), S('S4')],
+        initial=['S1'],
+        rows=[
+            R('S1', 'go', 'S2', a=False, g=False),
+            R('S2', 'go', 'S3', a=False, g=False),
+            R('S3', 'go', 'S4', a=False, g=False),
+            R('S4', 'go', 'S1', a=False, g=False),
+            R('S3', 'bk', 'S1', a=False, g=False),
+            R('S2', 'bk', 'S1', a=False, g=False),
+            R('S3', 'd1', None),
+            R('S3', 'd2', None, g=False),
+            R('S2', 'd2', None, g=False),
+            R('S1', 'nop', None, g=False),
+            R('S2', 'nop', None, g=False),
+            R('S4', 'nop', None, g=False),
+            R('S4', 'd1', None, defer=True),          # Defer action, guarded
+            R('S4', 'd2', None, g=False),
+        ],
+    ),
+    menu=[('pe', 'd1', 'local'), ('eq', 'go', 'local')],
+))
+
+# ------------------------------------------------------------------------------------------------
+# block: terminate state, interrupt states with one and with two end-interrupt events, user flags on
+# the blocking states, a second region that shows whether events are still processed, one deferring state
+reg(Zoo(
+    name='block',
+    events=['e1', 'e2', 'e3', 'e4', 'e5', 'e6'],
+    flags=['F1', 'F2'],
+    root=Machine(
+        'BRoot',
+        states=[
+            S('N1'), S('N2', flags=['F1']),
+            S('T', kind='terminate', flags=['F2']),
+            S('I1', kind='interrupt', end_events=['e5'], flags=['F1']),
+            S('I2', kind='interrupt', end_events=['e5', 'e6']),
+            S('M1', defer=['e4']), S('M2'),
+        ],
+        initial=['N1', 'M1'],
+        rows=[
+            R('N1', 'e1', 'N2'),
+            R('N2', 'e1', 'N1', a=False, g=False),
+            R('N1', 'e2', 'T', g=False),
+            R('N1', 'e3', 'I1', g=False),
+            R('N2', 'e3', 'I2', a=False, g=False),
+            R('I1', 'e5', 'N1', g=False),
+            R('I2', 'e5', 'N2', a=False),
+            R('I2', 'e6', 'N1', a=False, g=False),
+            R('M1', 'e1', 'M2', a=False, g=False),
+            R('M2', 'e1', 'M1', a=False, g=False),
+            R('M1', 'e5', 'M2', g=False),
+            R('M2', 'e4', None, g=False),
+            R('M2', 'e6', None, g=False),
+        ],
+    ),
+    menu=[('pe', 'e1', 'local'), ('eq', 'e4', 'local')],
+))
